@@ -27,6 +27,17 @@ def found_of(n):
     s = ex.subst(n)
     if s.k == 'MemberExpr' and s.decl and s.decl.get('name') in ('exists', 'found', 'valid') and s.c:
         return ex.var_of(s.c[0])
+    # a bool local defined once as found(X)
+    if s.k == 'DeclRefExpr' and s.decl_id is not None and s.fn is not None and _depth[0] < 2:
+        v = s.prog.vars[s.decl_id]
+        if v.get('kind') == 'local' and (s.prog.base_type(v.get('ty')) or {}).get('bool'):
+            d = ex.unique_def(s.fn, s.decl_id)
+            if d is not None:
+                _depth[0] += 1
+                try:
+                    return found_of(d)
+                finally:
+                    _depth[0] -= 1
     return None
 
 
